@@ -27,6 +27,10 @@ def mkbooks():
         {'Main': {'A1': 1, 'A2': 2, 'B1': '=A1+A2', 'B2': '=Nope!A1+1', 'C3': '=IF(B2>2,"x","y")'}, 'Other': {'A1': '=Main!B2+1', 'B1': 5}},   # missing sheet
         # the same sheet names in the OTHER tab order (a name resolved once and remembered across workbooks would point at the wrong tab)
         {'Other': {'A1': '=Main!B2+1', 'B1': 5, 'B2': '=Other!B1+Main!A1'}, 'Main': {'A1': 3, 'A2': 4, 'B1': '=A1+A2', 'B2': '=SUM(Main!A1:A2)*2', 'C3': '=IF(B1>2,"x","y")'}},
+        # a very long flat formula, and a chain of dependent cells far too long for the interpreter's stack (rejected): what the first one needs
+        # must not change what happens to the second
+        {'Main': {'A1': 1, 'A2': 2, 'B2': '=' + '+'.join(['A1', 'A2'] * 200), 'C3': 3}, 'Other': {'A1': 1}},
+        {'Main': dict([('A1', '=D1+1'), ('A2', 2), ('B2', '=A1*2'), ('C3', 3)] + [('D%d' % i, '=D%d+1' % (i + 1)) for i in range(1, 360)] + [('D360', 1)]), 'Other': {'A1': 1}},
     ]
     paths = []
     for i, sp in enumerate(specs):
@@ -124,7 +128,7 @@ def gen_ops(rng, n):
         elif r < 0.4:
             ops.append(['write'])
         elif r < 0.6:
-            ops.append(['path', rng.randrange(7)])
+            ops.append(['path', rng.randrange(9)])
         elif r < 0.8:
             ops.append(['entry', rng.randrange(len(ENTRIES))])
         elif r < 0.9:
@@ -237,12 +241,13 @@ def corpus():
             {'ops': [['get'], ['path', 1], ['write'], ['path', 0], ['get'], ['entry', 2], ['path', 1], ['get']]},
             {'ops': [['path', 0], ['entry', 1], ['get'], ['entry', 3], ['disable'], ['get'], ['enable'], ['enable'], ['get']]},
             {'ops': [['path', 3], ['get'], ['path', 0], ['get']]}, {'ops': [['path', 4], ['get'], ['path', 1], ['get'], ['write']]},
+            {'ops': [['path', 7], ['get'], ['path', 8], ['get'], ['entry', 1], ['get']]}, {'ops': [['path', 8], ['get'], ['path', 7], ['get'], ['path', 8], ['get']]},
             {'ops': [['path', 0], ['get'], ['path', 6], ['get'], ['entry', 0], ['get']]}, {'ops': [['path', 6], ['entry', 1], ['get'], ['path', 1], ['get']]},
             {'ops': [['path', 5], ['get'], ['get'], ['path', 0], ['entry', 1], ['get']]}, {'ops': [['path', 3], ['entry', 3], ['get'], ['path', 1], ['get']]}]
 
 
 def run(R, tier):
-    R.coverage['rule'] = ('sequences of 3-9 facade calls (set path over 7 workbooks: two sharing formula texts, an unsafe one, three whose translation fails inside a formula (malformed, circular, missing sheet), one with the same sheet names in the other tab order; set/replace entry cell, enable/disable safety, '
+    R.coverage['rule'] = ('sequences of 3-9 facade calls (set path over 9 workbooks: two sharing formula texts, an unsafe one, three whose translation fails inside a formula (malformed, circular, missing sheet), one with the same sheet names in the other tab order, one with a 400-operand formula, one with a chain of 360 dependent cells; set/replace entry cell, enable/disable safety, '
                           'get, write) on one Parser, each get/write compared with what a fresh parser IN A FRESH PROCESS returns for the settings in force; plus the '
                           'text hash across subprocesses with several PYTHONHASHSEEDs and from 4 concurrent threads; non-trivial = a setter after a get')
     C.proof_obligations(R, 'theories/Props/C09.v', 'Props.C09', TARGETS)
